@@ -611,7 +611,27 @@ pub fn check(case: &Case, obs: &mut Obs) -> Result<(), Failure> {
             let _ = guard(|| other.translate_block(&case.bytes, case.address, &options));
             obs.class("relifted-after-the-sibling-translator");
         }
-        if let Ok(again) = guard(|| tr.translate_block(&case.bytes, case.address, &options)) {
+        // the second lift runs on this thread (after the sibling) or, one time in sixteen, on a thread
+        // that has never lifted anything
+        let fresh_thread = case.vseed % 64 == 0;
+        if fresh_thread {
+            obs.class("relifted-on-a-fresh-thread");
+        }
+        let relift = || {
+            if fresh_thread {
+                std::thread::scope(|sc| {
+                    sc.spawn(|| {
+                        let tr2 = translator_of(case.translator);
+                        guard(|| tr2.translate_block(&case.bytes, case.address, &options))
+                    })
+                    .join()
+                    .unwrap_or_else(|_| guard(|| panic!("the lifting thread died")))
+                })
+            } else {
+                guard(|| tr.translate_block(&case.bytes, case.address, &options))
+            }
+        };
+        if let Ok(again) = relift() {
             let same = match (&r, &again) {
                 (Ok(a), Ok(b)) => a.address() == b.address() && a.length() == b.length() && a.successors() == b.successors() && a.instructions() == b.instructions(),
                 (Err(_), Err(_)) => true,
@@ -623,9 +643,9 @@ pub fn check(case: &Case, obs: &mut Obs) -> Result<(), Failure> {
                     Err(e) => format!("Err({})", e),
                 };
                 fv::fail!(
-                    format!("C05|{}|not-a-function-of-its-input|{}", fam, if sibling.is_some() { "after-sibling-translator" } else { "repeated" }),
+                    format!("C05|{}|not-a-function-of-its-input|{}", fam, if fresh_thread { "on-a-fresh-thread" } else if sibling.is_some() { "after-sibling-translator" } else { "repeated" }),
                     "{} translate_block({:02x?}, 0x{:x}) gave [{}] and, lifted again{}, [{}]",
-                    name, case.bytes, case.address, show(&r), sibling.map(|s| format!(" after {} lifted the same bytes", s)).unwrap_or_default(), show(&again)
+                    name, case.bytes, case.address, show(&r), if fresh_thread { " on a thread that never lifted before".to_string() } else { sibling.map(|s| format!(" after {} lifted the same bytes", s)).unwrap_or_default() }, show(&again)
                 );
             }
         }
@@ -763,6 +783,7 @@ fn main() -> std::process::ExitCode {
     }
     floors.push(("addr-top", 0.05));
     floors.push(("relifted-after-the-sibling-translator", 0.10));
+    floors.push(("relifted-on-a-fresh-thread", 0.008));
     spec.floors = floors;
     spec.assumptions = vec![
         "guard determinism is sampled (all-zero, all-ones, per-scalar one-hot patterns and random valuations, 64 per guard set), not proved".into(),
